@@ -126,6 +126,9 @@ pub struct PipeW<'a> {
     rng: Rng,
     consecutive_eintr: u32,
     stats: &'a mut PipeStats,
+    /// hard-error fault: once this many bytes have been accepted every further `write` fails with a
+    /// non-retryable error ("no space left on device"); `None` = the pipe never fails
+    fail_after: Option<usize>,
 }
 
 /// The read end.
@@ -140,7 +143,11 @@ pub struct PipeR<'a> {
 
 impl<'a> PipeW<'a> {
     fn new(cfg: PipeCfg, stats: &'a mut PipeStats) -> Self {
-        PipeW { buf: Vec::new(), cfg, rng: Rng::new(cfg.seed ^ 0x57), consecutive_eintr: 0, stats }
+        PipeW { buf: Vec::new(), cfg, rng: Rng::new(cfg.seed ^ 0x57), consecutive_eintr: 0, stats, fail_after: None }
+    }
+    /// `Some(())` when the hard-error fault is due for this call
+    fn full(&self, data: &[u8]) -> bool {
+        matches!(self.fail_after, Some(limit) if !data.is_empty() && self.buf.len() >= limit)
     }
     /// Ok(n) or Err(()) = interrupted
     fn do_write(&mut self, data: &[u8]) -> Result<usize, ()> {
@@ -153,7 +160,10 @@ impl<'a> PipeW<'a> {
         if data.is_empty() {
             return Ok(0);
         }
-        let n = data.len().min(1 + self.rng.below(self.cfg.wmax as u64) as usize);
+        let mut n = data.len().min(1 + self.rng.below(self.cfg.wmax as u64) as usize);
+        if let Some(limit) = self.fail_after {
+            n = n.min(limit - self.buf.len()).max(1);
+        }
         self.buf.extend_from_slice(&data[..n]);
         self.stats.writes += 1;
         if n < data.len() {
@@ -197,6 +207,9 @@ impl<'a> PipeR<'a> {
 
 impl std::io::Write for PipeW<'_> {
     fn write(&mut self, data: &[u8]) -> std::io::Result<usize> {
+        if self.full(data) {
+            return Err(std::io::Error::new(std::io::ErrorKind::Other, "simulated: no space left on device"));
+        }
         self.do_write(data).map_err(|_| std::io::Error::from(std::io::ErrorKind::Interrupted))
     }
     fn flush(&mut self) -> std::io::Result<()> {
@@ -211,6 +224,9 @@ impl std::io::Read for PipeR<'_> {
 #[cfg(feature = "borsh")]
 impl borsh::io::Write for PipeW<'_> {
     fn write(&mut self, data: &[u8]) -> borsh::io::Result<usize> {
+        if self.full(data) {
+            return Err(borsh::io::Error::new(borsh::io::ErrorKind::Other, "simulated: no space left on device"));
+        }
         self.do_write(data).map_err(|_| borsh::io::Error::from(borsh::io::ErrorKind::Interrupted))
     }
     fn flush(&mut self) -> borsh::io::Result<()> {
@@ -397,6 +413,23 @@ fn roundtrip_one<V: Wire>(
     let mut want = Vec::new();
     walk(v, &mut want);
     let mut dig = Digest::new();
+    // --- fault: a failed attempt first ---------------------------------------------------------
+    // In a quarter of the runs the value is first serialized into a pipe whose write end fails hard
+    // ("no space left") after a few bytes. That attempt may fail - it is not judged beyond "no panic" -
+    // but it must leave nothing behind: the transfers below are the caller's retry and are judged as
+    // usual. (What a serializer with a reusable scratch buffer gets wrong after an early `?` return.)
+    if scn.pipe.seed & 3 == 1 {
+        let mut st = PipeStats::default();
+        let mut w = PipeW::new(scn.pipe, &mut st);
+        w.fail_after = Some((Rng::new(scn.pipe.seed ^ 0xD0).below(48)) as usize);
+        prog.tick();
+        cov.events += 1;
+        match guard(|| encode_piped(codec, v, &mut w)) {
+            Err(p) => return Err(("panic".to_string(), format!("{what}: serialization into a pipe whose writer fails (no space left) panicked: {p}"))),
+            Ok(Err(_)) => cov.hit("fault_write_error_then_retry"),
+            Ok(Ok(())) => cov.hit("note_failing_pipe_was_large_enough"),
+        }
+    }
     // --- fault-free transfer ---------------------------------------------------------------
     prog.tick();
     cov.events += 1;
